@@ -1,5 +1,5 @@
 // auto-generated: "lalrpop 0.23.1"
-// sha3: 35b5289d51bf04872fec2f771275310f9438f3255e0a11f19aacd98338c72abb
+// sha3: e90a171594caa204d9d2e3434ad18ec667f18011ae2f253c8eb95dd7ce318c54
 #[allow(unused_extern_crates)]
 extern crate lalrpop_util as __lalrpop_util;
 #[allow(unused_imports)]
@@ -9,7 +9,7 @@ extern crate alloc;
 
 #[rustfmt::skip]
 #[allow(explicit_outlives_requirements, non_snake_case, non_camel_case_types, unused_mut, unused_variables, unused_imports, unused_parens, clippy::needless_lifetimes, clippy::type_complexity, clippy::needless_return, clippy::too_many_arguments, clippy::match_single_binding, clippy::clone_on_copy, clippy::unit_arg)]
-mod __parse__P {
+mod __parse__S {
 
     #[allow(unused_extern_crates)]
     extern crate lalrpop_util as __lalrpop_util;
@@ -22,58 +22,71 @@ mod __parse__P {
     pub(crate) enum __Symbol<'input>
      {
         Variant0(&'input str),
-        Variant1(__lalrpop_util::ErrorRecovery<usize, Token<'input>, &'static str>),
-        Variant2(i64),
-        Variant3((Vec<i64>, usize)),
-        Variant4(Vec<i64>),
+        Variant1(String),
     }
     const __ACTION: &[i8] = &[
         // State 0
-        -5, 0, -5,
+        3, 4, 5, 6, 7, 8, 9, 10,
         // State 1
-        5, 0, 6,
+        0, 0, 0, 0, 0, 0, 0, 0,
         // State 2
-        0, 0, 0,
+        0, 0, 0, 0, 0, 0, 0, 0,
         // State 3
-        0, 7, 0,
+        0, 0, 0, 0, 0, 0, 0, 0,
         // State 4
-        0, -1, 0,
+        0, 0, 0, 0, 0, 0, 0, 0,
         // State 5
-        0, -2, 0,
+        0, 0, 0, 0, 0, 0, 0, 0,
         // State 6
-        -4, 0, -4,
+        0, 0, 0, 0, 0, 0, 0, 0,
+        // State 7
+        0, 0, 0, 0, 0, 0, 0, 0,
+        // State 8
+        0, 0, 0, 0, 0, 0, 0, 0,
+        // State 9
+        0, 0, 0, 0, 0, 0, 0, 0,
     ];
     fn __action(state: i8, integer: usize) -> i8 {
-        __ACTION[(state as usize) * 3 + integer]
+        __ACTION[(state as usize) * 8 + integer]
     }
     const __EOF_ACTION: &[i8] = &[
         // State 0
-        -5,
+        0,
         // State 1
-        -3,
+        -9,
         // State 2
-        -6,
+        -1,
         // State 3
-        0,
+        -2,
         // State 4
-        0,
+        -3,
         // State 5
-        0,
-        // State 6
         -4,
+        // State 6
+        -5,
+        // State 7
+        -6,
+        // State 8
+        -7,
+        // State 9
+        -8,
     ];
     fn __goto(state: i8, nt: usize) -> i8 {
         match nt {
-            0 => 3,
-            1 => 2,
-            2 => 1,
+            0 => 1,
             _ => 0,
         }
     }
     #[allow(clippy::needless_raw_string_hashes)]
     const __TERMINAL: &[&str] = &[
-        r###"r#"[0-9]+"#"###,
-        r###"";""###,
+        r###""k0""###,
+        r###""k1""###,
+        r###""k2""###,
+        r###""k3""###,
+        r###""k4""###,
+        r###""k5""###,
+        r###""k6""###,
+        r###""k7""###,
     ];
     fn __expected_tokens(__state: i8) -> alloc::vec::Vec<alloc::string::String> {
         __TERMINAL.iter().enumerate().filter_map(|(index, terminal)| {
@@ -114,7 +127,7 @@ mod __parse__P {
         type Token = Token<'input>;
         type TokenIndex = usize;
         type Symbol = __Symbol<'input>;
-        type Success = (Vec<i64>, usize);
+        type Success = String;
         type StateIndex = i8;
         type Action = i8;
         type ReduceIndex = i8;
@@ -142,7 +155,7 @@ mod __parse__P {
 
         #[inline]
         fn error_action(&self, state: i8) -> i8 {
-            __action(state, 3 - 1)
+            __action(state, 8 - 1)
         }
 
         #[inline]
@@ -169,7 +182,7 @@ mod __parse__P {
 
         #[inline]
         fn uses_error_recovery(&self) -> bool {
-            true
+            false
         }
 
         #[inline]
@@ -177,7 +190,7 @@ mod __parse__P {
             &self,
             recovery: __state_machine::ErrorRecovery<Self>,
         ) -> Self::Symbol {
-            __Symbol::Variant1(recovery)
+            panic!("error recovery not enabled for this grammar")
         }
 
         fn reduce(
@@ -212,6 +225,12 @@ mod __parse__P {
         match __token {
             Token(0, _) if true => Some(0),
             Token(1, _) if true => Some(1),
+            Token(2, _) if true => Some(2),
+            Token(3, _) if true => Some(3),
+            Token(4, _) if true => Some(4),
+            Token(5, _) if true => Some(5),
+            Token(6, _) if true => Some(6),
+            Token(7, _) if true => Some(7),
             _ => None,
         }
     }
@@ -224,8 +243,8 @@ mod __parse__P {
     ) -> __Symbol<'input>
     {
         #[allow(clippy::manual_range_patterns)]match __token_index {
-            0 | 1 => match __token {
-                Token(0, __tok0) | Token(1, __tok0) if true => __Symbol::Variant0(__tok0),
+            0 | 1 | 2 | 3 | 4 | 5 | 6 | 7 => match __token {
+                Token(0, __tok0) | Token(1, __tok0) | Token(2, __tok0) | Token(3, __tok0) | Token(4, __tok0) | Token(5, __tok0) | Token(6, __tok0) | Token(7, __tok0) if true => __Symbol::Variant0(__tok0),
                 _ => unreachable!(),
             },
             _ => unreachable!(),
@@ -254,35 +273,53 @@ mod __parse__P {
             2 => {
                 __state_machine::SimulatedReduce::Reduce {
                     states_to_pop: 1,
-                    nonterminal_produced: 1,
+                    nonterminal_produced: 0,
                 }
             }
             3 => {
                 __state_machine::SimulatedReduce::Reduce {
-                    states_to_pop: 3,
-                    nonterminal_produced: 2,
+                    states_to_pop: 1,
+                    nonterminal_produced: 0,
                 }
             }
             4 => {
                 __state_machine::SimulatedReduce::Reduce {
-                    states_to_pop: 0,
-                    nonterminal_produced: 2,
+                    states_to_pop: 1,
+                    nonterminal_produced: 0,
                 }
             }
-            5 => __state_machine::SimulatedReduce::Accept,
+            5 => {
+                __state_machine::SimulatedReduce::Reduce {
+                    states_to_pop: 1,
+                    nonterminal_produced: 0,
+                }
+            }
+            6 => {
+                __state_machine::SimulatedReduce::Reduce {
+                    states_to_pop: 1,
+                    nonterminal_produced: 0,
+                }
+            }
+            7 => {
+                __state_machine::SimulatedReduce::Reduce {
+                    states_to_pop: 1,
+                    nonterminal_produced: 0,
+                }
+            }
+            8 => __state_machine::SimulatedReduce::Accept,
             _ => panic!("invalid reduction index {__reduce_index}")
         }
     }
-    pub struct PParser {
+    pub struct SParser {
         builder: __lalrpop_util::lexer::MatcherBuilder,
         _priv: (),
     }
 
-    impl Default for PParser { fn default() -> Self { Self::new() } }
-    impl PParser {
-        pub fn new() -> PParser {
+    impl Default for SParser { fn default() -> Self { Self::new() } }
+    impl SParser {
+        pub fn new() -> SParser {
             let __builder = super::__intern_token::new_builder();
-            PParser {
+            SParser {
                 builder: __builder,
                 _priv: (),
             }
@@ -294,7 +331,7 @@ mod __parse__P {
         >(
             &self,
             input: &'input str,
-        ) -> Result<(Vec<i64>, usize), __lalrpop_util::ParseError<usize, Token<'input>, &'static str>>
+        ) -> Result<String, __lalrpop_util::ParseError<usize, Token<'input>, &'static str>>
         {
             let mut __tokens = self.builder.matcher(input);
             __state_machine::Parser::drive(
@@ -348,7 +385,7 @@ mod __parse__P {
         __states: &mut alloc::vec::Vec<i8>,
         __symbols: &mut alloc::vec::Vec<(usize,__Symbol<'input>,usize)>,
         _: core::marker::PhantomData<(&'input ())>,
-    ) -> Option<Result<(Vec<i64>, usize),__lalrpop_util::ParseError<usize, Token<'input>, &'static str>>>
+    ) -> Option<Result<String,__lalrpop_util::ParseError<usize, Token<'input>, &'static str>>>
     {
         let (__pop_states, __nonterminal) = match __action {
             0 => {
@@ -367,8 +404,17 @@ mod __parse__P {
                 __reduce4(input, __lookahead_start, __symbols, core::marker::PhantomData::<(&())>)
             }
             5 => {
-                // __P = P => ActionFn(0);
-                let __sym0 = __pop_Variant3(__symbols);
+                __reduce5(input, __lookahead_start, __symbols, core::marker::PhantomData::<(&())>)
+            }
+            6 => {
+                __reduce6(input, __lookahead_start, __symbols, core::marker::PhantomData::<(&())>)
+            }
+            7 => {
+                __reduce7(input, __lookahead_start, __symbols, core::marker::PhantomData::<(&())>)
+            }
+            8 => {
+                // __S = S => ActionFn(0);
+                let __sym0 = __pop_Variant1(__symbols);
                 let __start = __sym0.0.clone();
                 let __end = __sym0.2.clone();
                 let __nt = super::__action0::<>(input, __sym0);
@@ -387,47 +433,14 @@ mod __parse__P {
     fn __symbol_type_mismatch() -> ! {
         panic!("symbol type mismatch")
     }
-    fn __pop_Variant3<
-      'input,
-    >(
-        __symbols: &mut alloc::vec::Vec<(usize,__Symbol<'input>,usize)>
-    ) -> (usize, (Vec<i64>, usize), usize)
-     {
-        match __symbols.pop() {
-            Some((__l, __Symbol::Variant3(__v), __r)) => (__l, __v, __r),
-            _ => __symbol_type_mismatch()
-        }
-    }
-    fn __pop_Variant4<
-      'input,
-    >(
-        __symbols: &mut alloc::vec::Vec<(usize,__Symbol<'input>,usize)>
-    ) -> (usize, Vec<i64>, usize)
-     {
-        match __symbols.pop() {
-            Some((__l, __Symbol::Variant4(__v), __r)) => (__l, __v, __r),
-            _ => __symbol_type_mismatch()
-        }
-    }
     fn __pop_Variant1<
       'input,
     >(
         __symbols: &mut alloc::vec::Vec<(usize,__Symbol<'input>,usize)>
-    ) -> (usize, __lalrpop_util::ErrorRecovery<usize, Token<'input>, &'static str>, usize)
+    ) -> (usize, String, usize)
      {
         match __symbols.pop() {
             Some((__l, __Symbol::Variant1(__v), __r)) => (__l, __v, __r),
-            _ => __symbol_type_mismatch()
-        }
-    }
-    fn __pop_Variant2<
-      'input,
-    >(
-        __symbols: &mut alloc::vec::Vec<(usize,__Symbol<'input>,usize)>
-    ) -> (usize, i64, usize)
-     {
-        match __symbols.pop() {
-            Some((__l, __Symbol::Variant2(__v), __r)) => (__l, __v, __r),
             _ => __symbol_type_mismatch()
         }
     }
@@ -451,12 +464,12 @@ mod __parse__P {
         _: core::marker::PhantomData<(&'input ())>,
     ) -> (usize, usize)
     {
-        // I = r#"[0-9]+"# => ActionFn(4);
+        // S = "k0" => ActionFn(1);
         let __sym0 = __pop_Variant0(__symbols);
         let __start = __sym0.0.clone();
         let __end = __sym0.2.clone();
-        let __nt = super::__action4::<>(input, __sym0);
-        __symbols.push((__start, __Symbol::Variant2(__nt), __end));
+        let __nt = super::__action1::<>(input, __sym0);
+        __symbols.push((__start, __Symbol::Variant1(__nt), __end));
         (1, 0)
     }
     fn __reduce1<
@@ -468,12 +481,12 @@ mod __parse__P {
         _: core::marker::PhantomData<(&'input ())>,
     ) -> (usize, usize)
     {
-        // I = error => ActionFn(5);
-        let __sym0 = __pop_Variant1(__symbols);
+        // S = "k1" => ActionFn(2);
+        let __sym0 = __pop_Variant0(__symbols);
         let __start = __sym0.0.clone();
         let __end = __sym0.2.clone();
-        let __nt = super::__action5::<>(input, __sym0);
-        __symbols.push((__start, __Symbol::Variant2(__nt), __end));
+        let __nt = super::__action2::<>(input, __sym0);
+        __symbols.push((__start, __Symbol::Variant1(__nt), __end));
         (1, 0)
     }
     fn __reduce2<
@@ -485,13 +498,13 @@ mod __parse__P {
         _: core::marker::PhantomData<(&'input ())>,
     ) -> (usize, usize)
     {
-        // P = S => ActionFn(1);
-        let __sym0 = __pop_Variant4(__symbols);
+        // S = "k2" => ActionFn(3);
+        let __sym0 = __pop_Variant0(__symbols);
         let __start = __sym0.0.clone();
         let __end = __sym0.2.clone();
-        let __nt = super::__action1::<>(input, __sym0);
-        __symbols.push((__start, __Symbol::Variant3(__nt), __end));
-        (1, 1)
+        let __nt = super::__action3::<>(input, __sym0);
+        __symbols.push((__start, __Symbol::Variant1(__nt), __end));
+        (1, 0)
     }
     fn __reduce3<
         'input,
@@ -502,16 +515,13 @@ mod __parse__P {
         _: core::marker::PhantomData<(&'input ())>,
     ) -> (usize, usize)
     {
-        // S = S, I, ";" => ActionFn(2);
-        assert!(__symbols.len() >= 3);
-        let __sym2 = __pop_Variant0(__symbols);
-        let __sym1 = __pop_Variant2(__symbols);
-        let __sym0 = __pop_Variant4(__symbols);
+        // S = "k3" => ActionFn(4);
+        let __sym0 = __pop_Variant0(__symbols);
         let __start = __sym0.0.clone();
-        let __end = __sym2.2.clone();
-        let __nt = super::__action2::<>(input, __sym0, __sym1, __sym2);
-        __symbols.push((__start, __Symbol::Variant4(__nt), __end));
-        (3, 2)
+        let __end = __sym0.2.clone();
+        let __nt = super::__action4::<>(input, __sym0);
+        __symbols.push((__start, __Symbol::Variant1(__nt), __end));
+        (1, 0)
     }
     fn __reduce4<
         'input,
@@ -522,16 +532,68 @@ mod __parse__P {
         _: core::marker::PhantomData<(&'input ())>,
     ) -> (usize, usize)
     {
-        // S =  => ActionFn(3);
-        let __start = __lookahead_start.cloned().or_else(|| __symbols.last().map(|s| s.2.clone())).unwrap_or_default();
-        let __end = __start.clone();
-        let __nt = super::__action3::<>(input, &__start, &__end);
-        __symbols.push((__start, __Symbol::Variant4(__nt), __end));
-        (0, 2)
+        // S = "k4" => ActionFn(5);
+        let __sym0 = __pop_Variant0(__symbols);
+        let __start = __sym0.0.clone();
+        let __end = __sym0.2.clone();
+        let __nt = super::__action5::<>(input, __sym0);
+        __symbols.push((__start, __Symbol::Variant1(__nt), __end));
+        (1, 0)
+    }
+    fn __reduce5<
+        'input,
+    >(
+        input: &'input str,
+        __lookahead_start: Option<&usize>,
+        __symbols: &mut alloc::vec::Vec<(usize,__Symbol<'input>,usize)>,
+        _: core::marker::PhantomData<(&'input ())>,
+    ) -> (usize, usize)
+    {
+        // S = "k5" => ActionFn(6);
+        let __sym0 = __pop_Variant0(__symbols);
+        let __start = __sym0.0.clone();
+        let __end = __sym0.2.clone();
+        let __nt = super::__action6::<>(input, __sym0);
+        __symbols.push((__start, __Symbol::Variant1(__nt), __end));
+        (1, 0)
+    }
+    fn __reduce6<
+        'input,
+    >(
+        input: &'input str,
+        __lookahead_start: Option<&usize>,
+        __symbols: &mut alloc::vec::Vec<(usize,__Symbol<'input>,usize)>,
+        _: core::marker::PhantomData<(&'input ())>,
+    ) -> (usize, usize)
+    {
+        // S = "k6" => ActionFn(7);
+        let __sym0 = __pop_Variant0(__symbols);
+        let __start = __sym0.0.clone();
+        let __end = __sym0.2.clone();
+        let __nt = super::__action7::<>(input, __sym0);
+        __symbols.push((__start, __Symbol::Variant1(__nt), __end));
+        (1, 0)
+    }
+    fn __reduce7<
+        'input,
+    >(
+        input: &'input str,
+        __lookahead_start: Option<&usize>,
+        __symbols: &mut alloc::vec::Vec<(usize,__Symbol<'input>,usize)>,
+        _: core::marker::PhantomData<(&'input ())>,
+    ) -> (usize, usize)
+    {
+        // S = "k7" => ActionFn(8);
+        let __sym0 = __pop_Variant0(__symbols);
+        let __start = __sym0.0.clone();
+        let __end = __sym0.2.clone();
+        let __nt = super::__action8::<>(input, __sym0);
+        __symbols.push((__start, __Symbol::Variant1(__nt), __end));
+        (1, 0)
     }
 }
 #[allow(unused_imports)]
-pub use self::__parse__P::PParser;
+pub use self::__parse__S::SParser;
 #[rustfmt::skip]
 mod __intern_token {
     #![allow(unused_imports)]
@@ -543,8 +605,14 @@ mod __intern_token {
     extern crate alloc;
     pub fn new_builder() -> __lalrpop_util::lexer::MatcherBuilder {
         let __strs: &[(&str, bool)] = &[
-            ("[0-9]+", false),
-            (";", false),
+            ("(?:k0)", false),
+            ("(?:k1)", false),
+            ("(?:k2)", false),
+            ("(?:k3)", false),
+            ("(?:k4)", false),
+            ("(?:k5)", false),
+            ("(?:k6)", false),
+            ("(?:k7)", false),
             (r"\s+", true),
         ];
         __lalrpop_util::lexer::MatcherBuilder::new(__strs.iter().copied()).unwrap()
@@ -558,8 +626,8 @@ fn __action0<
     'input,
 >(
     input: &'input str,
-    (_, __0, _): (usize, (Vec<i64>, usize), usize),
-) -> (Vec<i64>, usize)
+    (_, __0, _): (usize, String, usize),
+) -> String
 {
     __0
 }
@@ -570,10 +638,10 @@ fn __action1<
     'input,
 >(
     input: &'input str,
-    (_, v, _): (usize, Vec<i64>, usize),
-) -> (Vec<i64>, usize)
+    (_, __0, _): (usize, &'input str, usize),
+) -> String
 {
-    { let n = v.iter().filter(|x| **x < 0).count(); (v, n) }
+    r###",\a}"z"###.to_string()
 }
 
 #[allow(unused_variables)]
@@ -582,12 +650,11 @@ fn __action2<
     'input,
 >(
     input: &'input str,
-    (_, mut v, _): (usize, Vec<i64>, usize),
-    (_, i, _): (usize, i64, usize),
-    (_, _, _): (usize, &'input str, usize),
-) -> Vec<i64>
+    (_, __0, _): (usize, &'input str, usize),
+) -> String
 {
-    { v.push(i); v }
+    { let (x, y) = ({ /* } , ; */ let v = vec![(1, 2), (3, 4)]; // }
+ v[1].0.to_string() }, { let r = 7; let t = (r, 1); /* /* nested , */ ; */ (t.0 / t.1).to_string() }); x + &y }
 }
 
 #[allow(unused_variables)]
@@ -596,11 +663,10 @@ fn __action3<
     'input,
 >(
     input: &'input str,
-    __lookbehind: &usize,
-    __lookahead: &usize,
-) -> Vec<i64>
+    (_, __0, _): (usize, &'input str, usize),
+) -> String
 {
-    vec![]
+    { let r = 7; let t = (r, 1); /* /* nested , */ ; */ (t.0 / t.1).to_string() }
 }
 
 #[allow(unused_variables)]
@@ -610,9 +676,9 @@ fn __action4<
 >(
     input: &'input str,
     (_, __0, _): (usize, &'input str, usize),
-) -> i64
+) -> String
 {
-    __0.parse().unwrap_or(0)
+    "r#)a/*".to_string()
 }
 
 #[allow(unused_variables)]
@@ -621,10 +687,46 @@ fn __action5<
     'input,
 >(
     input: &'input str,
-    (_, __0, _): (usize, __lalrpop_util::ErrorRecovery<usize, Token<'input>, &'static str>, usize),
-) -> i64
+    (_, __0, _): (usize, &'input str, usize),
+) -> String
 {
-    -1
+    ";\n".to_string()
+}
+
+#[allow(unused_variables)]
+#[allow(clippy::too_many_arguments, clippy::needless_lifetimes, clippy::just_underscores_and_digits, clippy::extra_unused_type_parameters)]
+fn __action6<
+    'input,
+>(
+    input: &'input str,
+    (_, __0, _): (usize, &'input str, usize),
+) -> String
+{
+    r#"a,;'"#.to_string()
+}
+
+#[allow(unused_variables)]
+#[allow(clippy::too_many_arguments, clippy::needless_lifetimes, clippy::just_underscores_and_digits, clippy::extra_unused_type_parameters)]
+fn __action7<
+    'input,
+>(
+    input: &'input str,
+    (_, __0, _): (usize, &'input str, usize),
+) -> String
+{
+    "é ]é\\".to_string()
+}
+
+#[allow(unused_variables)]
+#[allow(clippy::too_many_arguments, clippy::needless_lifetimes, clippy::just_underscores_and_digits, clippy::extra_unused_type_parameters)]
+fn __action8<
+    'input,
+>(
+    input: &'input str,
+    (_, __0, _): (usize, &'input str, usize),
+) -> String
+{
+    '\n'.to_string()
 }
 
 #[allow(clippy::type_complexity, dead_code)]
